@@ -18,6 +18,15 @@ class Undecided(Exception):
     """Construct outside the supported subset / contract cannot be applied: function is undecided."""
 
 
+class PyRaise(Exception):
+    """A Python exception the modelled code certainly raises while an expression is evaluated (an attribute no value of that type has): routed like a raise
+    statement - to the enclosing handler, or out of the function as an exceptional exit."""
+
+    def __init__(self, exc, why=""):
+        Exception.__init__(self, f"{exc}: {why}")
+        self.exc = exc
+
+
 # --------------------------------------------------------------------------------------- values
 class Tup(tuple):
     pass
@@ -66,6 +75,7 @@ class ArrData:
     def __init__(self, shape, data, elem="real", owner="fresh", view_of=None):
         self.shape, self.data, self.elem, self.owner, self.view_of = tuple(shape), data, elem, owner, view_of
         self.count_term = None      # ghost number of True entries for boolean masks of symbolic objects
+        self.pylist = False         # True: a Python list of numbers (ndarray.tolist(), and its copies) - what json can write; arrays it cannot
 
     @property
     def rank(self):
@@ -560,6 +570,9 @@ class Exec:
             if attr in npmodel.STR_METHODS:
                 return FuncV(lambda ex, s, args, kw, nd, _m=npmodel.STR_METHODS[attr], _v=v: _m(ex, s, [_v] + list(args), kw, nd),
                              f"str.{attr}")
+        if attr in ("tolist",) and (isinstance(v, (NoneV, StrV, DictV, Tup, LRef)) or (is_z3(lit(v)) and (z3.is_int(lit(v)) or z3.is_real(lit(v)) or z3.is_bool(lit(v))))):
+            # no None, str, dict, tuple, list or Python number has this attribute (symbolic numbers are Python numbers, as in isinstance: A-PYNUM)
+            raise PyRaise("AttributeError", f".{attr} of a {type(v).__name__}")
         raise Undecided(f"attribute .{attr} on {type(v).__name__} at line {getattr(node, 'lineno', '?')}")
 
     # ---- array helpers
@@ -903,6 +916,30 @@ class Exec:
             raise Undecided("subscript of a boolean-mask selection other than [:, column]")
         raise Undecided(f"subscript on {type(v).__name__} at line {e.lineno}")
 
+    def ev_DictComp(self, e, st):
+        """{k: expr for k, v in d.items()} / {k: expr for k in seq} over a concrete sequence (a dictionary with constant keys): entry by entry, like the loop"""
+        if len(e.generators) != 1 or e.generators[0].ifs or e.generators[0].is_async:
+            raise Undecided("dict comprehension with a condition or several generators")
+        gen = e.generators[0]
+        src = self.ev(gen.iter, st)
+        if isinstance(src, LRef):
+            src = list(st.heap[src.sid].items)
+        if not isinstance(src, (Tup, tuple, list)):
+            raise Undecided("dict comprehension over a sequence that is not concrete")
+        names = [y.id for y in ast.walk(gen.target) if isinstance(y, ast.Name)]
+        saved = {nm: st.env[nm] for nm in names if nm in st.env}
+        items = {}
+        for it in src:
+            self.assign(gen.target, it, st, e)
+            k = self.ev(e.key, st)
+            if type(k) is not StrV or k.s.startswith("<"):
+                raise Undecided("dict comprehension with a key that is not a concrete string")
+            items[k.s] = self.ev(e.value, st)
+        for nm in names:
+            st.env.pop(nm, None)
+        st.env.update(saved)
+        return DictV(items)
+
     def ev_ListComp(self, e, st):
         """[expr for x in seq] over a symbolic-length list: a symbolic sequence of the same length whose element i is expr with x = seq[i]
         (the element expression is evaluated when an element is asked for; it must not write)"""
@@ -1205,7 +1242,13 @@ class Exec:
         m = getattr(self, "st_" + type(n).__name__, None)
         if m is None:
             raise Undecided(f"statement {type(n).__name__} at line {n.lineno}")
-        return m(n, st)
+        try:
+            return m(n, st)
+        except PyRaise as pr:
+            if isinstance(n, (ast.For, ast.While, ast.If, ast.Try, ast.With)):
+                raise Undecided(f"{pr} raised inside the header of a compound statement at line {n.lineno}")
+            self.returns.append(ReturnRec(st, None, pr.exc, n.lineno))
+            return []
 
     def st_Expr(self, n, st):
         if isinstance(n.value, ast.Constant):
@@ -1705,16 +1748,22 @@ class Exec:
         return result
 
     def st_FunctionDef(self, n, st):
-        """nested `def f(params): return <expression>`: inlined at its calls (defaults evaluated at definition, free names read at the call,
-        as Python's late-binding closures do)"""
+        """nested `def f(params): ...`: inlined at its calls (defaults evaluated at definition, free names read at the call, as Python's late-binding
+        closures do).  A body that is a single return expression is evaluated as an expression; any other body is executed statement by statement and
+        must have exactly one way out for the arguments it is called with (one return, or one exception) - several ways out are undecided."""
         from . import loader
         body = loader.strip_docstring(n)
         a = n.args
-        if n.decorator_list or len(body) != 1 or not isinstance(body[0], ast.Return) or body[0].value is None or a.vararg or a.kwarg or a.kwonlyargs or a.posonlyargs:
-            raise Undecided("nested function definition other than a single return expression")
+        if n.decorator_list or a.vararg or a.kwarg or a.kwonlyargs or a.posonlyargs:
+            raise Undecided("nested function definition with decorators or starred / keyword-only parameters")
+        single = len(body) == 1 and isinstance(body[0], ast.Return) and body[0].value is not None
+        if not single:
+            assigned_free = {y.id for x in body for y in ast.walk(x) if isinstance(y, (ast.Nonlocal, ast.Global))}
+            if assigned_free:
+                raise Undecided("nested function definition with nonlocal / global names")
         params = [x.arg for x in a.args]
         defaults = {p: self.ev(d, st) for p, d in zip(params[len(params) - len(a.defaults):], a.defaults)}
-        ret = body[0].value
+        ret = body[0].value if single else None
 
         def fn(ex, s, args, kw, node):
             if len(args) > len(params) or any(k not in params for k in kw):
@@ -1726,12 +1775,38 @@ class Exec:
                 raise Undecided(f"missing argument in call of nested function {n.name}")
             saved = s.env
             s.env = dict(saved, **bound)
+            if single:
+                try:
+                    return ex.ev(ret, s)
+                finally:
+                    ghost = {k: v for k, v in s.env.items() if k.startswith("__")}       # ghost state written by modelled callees survives the call
+                    s.env = saved
+                    s.env.update(ghost)
+            nret = len(ex.returns)
             try:
-                return ex.ev(ret, s)
-            finally:
-                ghost = {k: v for k, v in s.env.items() if k.startswith("__")}       # ghost state written by modelled callees survives the call
+                outs = ex.run(body, s)
+            except BaseException:
+                del ex.returns[nret:]
                 s.env = saved
-                s.env.update(ghost)
+                raise
+            recs = ex.returns[nret:]
+            del ex.returns[nret:]
+            ways = [(r.st, r.value, r.exc) for r in recs] + [(o, NONE, None) for o in outs]        # falling off the end returns None
+            if len(ways) != 1:
+                s.env = saved
+                raise Undecided(f"nested function {n.name} has {len(ways)} ways out for these arguments at line {getattr(node, 'lineno', '?')}")
+            st_out, value, exc = ways[0]
+            if st_out.flag is not None:
+                s.env = saved
+                raise Undecided(f"break / continue leaves nested function {n.name}")
+            ghost = {k: v for k, v in st_out.env.items() if k.startswith("__")}
+            if st_out is not s:              # the body forked (a branch, a handler): the caller continues in the state of the one way out
+                s.pc, s.heap, s.trace, s.writes = st_out.pc, st_out.heap, st_out.trace, st_out.writes
+            s.env = saved
+            s.env.update(ghost)
+            if exc is not None:
+                raise PyRaise(exc, f"raised by nested function {n.name}")
+            return value
         st.env[n.name] = FuncV(fn, n.name)
         return [st]
 
